@@ -142,6 +142,11 @@ class OperationGroup(ContextMixin, ContentMixin):
 
         if counter is not None:
             self.context.set_counter(counter - 1)  # which is supposedly the current state (head)
+        else:
+            known = [int(x['counter']) for x in self.contents if x.get('counter') not in (None, '', '0')]
+            if known and any(x.get('counter') in ('', '0') for x in self.contents):
+                # the group is being extended: continue after the counters it already carries
+                self.context.set_counter(max(known))
 
         if gas_limit is None:
             hard_gas_limit_per_content = int(constants['hard_gas_limit_per_operation']) // len(self.contents)
